@@ -6,7 +6,7 @@
    are the same).  Which agent is which is decided by the order of the messages (the agents table keeps the order of joining and
    the reset draws follow it), never by an order or a value of the addresses.  Proofs are in Proofs/CoordRename.v. *)
 From Coq Require Import ZArith NArith List Bool Lia.
-From NSG Require Import Base.Prelude Model.Defender Model.Coord Model.CoordExec Proofs.CoordRename.
+From NSG Require Import Base.Prelude Model.Defender Model.Coord Model.CoordExec Proofs.CoordRename Proofs.CoordTwinsQuiescent.
 Import ListNotations.
 
 Theorem C20_peer_addresses_step :
@@ -41,6 +41,15 @@ Proof.
   intros c. exact (outs_rs f Hf s c).
 Qed.
 
+(* ... and the renamed state is idle (no internal label enabled) exactly when the original is: nothing is held back or released because of
+   the addresses *)
+Theorem C20_peer_addresses_quiescent :
+  forall (V W G : Type) (wstep : W -> V -> G -> W * V) (winit : W -> role -> W * V)
+         (goal : role -> V -> bool) (detect : list G -> G -> bool) (cfg : config)
+         (f : addr -> addr), (forall a b, f a = f b -> a = b) ->
+  forall (s : @state V W G), quiescent wstep winit goal detect cfg (rs f s) = quiescent wstep winit goal detect cfg s.
+Proof. intros V W G wstep winit goal detect cfg f Hf s. exact (quiescent_rs wstep winit goal detect cfg f Hf s). Qed.
+
 (* non-vacuity: two attackers, two required players, a collective reset; the agent that joins FIRST gets the first draw at the
    join (view 5) and at the reset (view 8) - whether it is the one connected from the lower address (1) or from the higher (2) *)
 Definition swap12 (a : addr) : addr := if N.eqb a 1 then 2%N else if N.eqb a 2 then 1%N else a.
@@ -74,3 +83,4 @@ Proof. vm_compute. repeat split; reflexivity. Qed.
 Print Assumptions C20_peer_addresses_step.
 Print Assumptions C20_peer_addresses.
 Print Assumptions C20_peer_addresses_observables.
+Print Assumptions C20_peer_addresses_quiescent.
